@@ -5,6 +5,8 @@ import (
 	"reflect"
 	"strings"
 
+	"github.com/alecthomas/participle/v2"
+
 	"github.com/alecthomas/participle/v2/lexer"
 )
 
@@ -22,6 +24,25 @@ var UnionTypes = []reflect.Type{
 	reflect.TypeOf((*U2)(nil)).Elem(),
 }
 
+// IdentType is the token type PIdent consumes (set by the engine that owns the lexer).
+var IdentType lexer.TokenType
+
+// PIdent is a user-implemented production (participle.Parseable): one Ident token. The model treats it
+// as the production `F0 string "@Ident"`.
+type PIdent struct {
+	F0 string
+}
+
+func (p *PIdent) Parse(lex *lexer.PeekingLexer) error {
+	t := lex.Peek()
+	if t.Type != IdentType {
+		return participleNextMatch
+	}
+	p.F0 = t.Value
+	lex.Next()
+	return nil
+}
+
 // PosMixin is embedded into nodes to test position injection through embedded structs.
 type PosMixin struct {
 	Pos    lexer.Position
@@ -31,6 +52,8 @@ type PosMixin struct {
 
 // NamedPos is a position type convertible from lexer.Position (C11: "convertible position types").
 type NamedPos lexer.Position
+
+var participleNextMatch = participle.NextMatch
 
 var (
 	posT   = reflect.TypeOf(lexer.Position{})
